@@ -100,6 +100,15 @@ def addr? (s : String) : Option Addr :=
   | ["d", h, p] => do pure (.dom (← ofHex? h) (← p.toNat?))
   | _ => none
 
+/-- result of `netip.ParseAddr` as told by the harness: `none`, `zoned` (a marker address), or `4:hex:0` / `6:hex:0` -/
+def ipParam? (s : String) : Option (Option (Bool × Bytes)) :=
+  if s == "none" then some none
+  else if s == "zoned" then some (some (false, [122]))
+  else match addr? s with
+    | some (.ip4 a _) => some (some (true, a))
+    | some (.ip6 a _) => some (some (false, a))
+    | _ => none
+
 /-- the toy block cipher of the driver: the identity (the harness sends separate headers already decrypted) -/
 def idCiphers (openResult : Option Bytes) : Ciphers := ⟨id, fun _ _ => openResult⟩
 
@@ -159,6 +168,21 @@ def step (_ : Unit) (line : String) : Unit × String :=
         let finish : Option UInt8 ← (if fin == "-" then some none else fin.toNat?.map (fun n => some (UInt8.ofNat n)))
         pure (showR (fun (x : Addr × Bytes) => s!"{x.1.render} w={toHexField x.2}")
           (s5Server (← bool? auth) s5Check (← bool? tcp) (← bool? udp) (← bool? tcpLocal) [1, 127, 0, 0, 1, 4, 56] finish (← ofHex? h)))
+    | ["socks5cli", auth, cmd, enc, h] => do
+        pure (showR (fun (a : Addr) => a.render)
+          (s5Client (← bool? auth) [1, 4, 117, 115, 101, 114, 4, 112, 97, 115, 115] (UInt8.ofNat (← cmd.toNat?)) (← ofHex? enc) (← ofHex? h)))
+    | ["hosthdr", h, ipHost, ipInner, pa] => do
+        let host ← ofHex? h
+        let inner := (host.drop 1).dropLast
+        let ipH ← ipParam? ipHost
+        let ipI ← ipParam? ipInner
+        let paA : Option Addr ← (if pa == "none" then some none else if pa == "zoned" then some (some (.ip6 [122] 0)) else (addr? pa).map some)
+        let parseIP : Bytes → Option (Bool × Bytes) := fun s => if s == host then ipH else if s == inner then ipI else none
+        pure (match hostHeaderToAddr parseIP (fun _ => paA) host with
+          | .ok (.ip6 [122] _) => "ok zoned"
+          | .ok a => "ok " ++ a.render
+          | .err _ => "err host"
+          | .panic => "panic")
     | ["directpack", target, targetOnly, srcIsTarget, plen, maxLen] => do
         pure (showR (fun (_ : Unit) => "packed") (directServerPack (← addr? target) (← bool? targetOnly) (← bool? srcIsTarget) (← plen.toNat?) (← maxLen.toNat?)))
     | ["directcfg", target, targetOnly] => do
